@@ -8,7 +8,9 @@
    Theorems 11-12: every theta (QuadTree_Proof_Theta.v).  Theorems 13-15: binary64 - the box arithmetic of the code in Coq
    primitive floats (QuadTree_Float_Model.v), the rounding crack F25 as a theorem, its absence on grid inputs with headroom
    and the refinement of the exact model there (QuadTree_Proof_Float.v, QuadTree_Proof_FloatExact.v, QuadTree_Proof_FloatQ.v;
-   these three use the PrimFloat axioms of the standard library and, the last two, Flocq 4.1 and the classical reals). *)
+   these three use the PrimFloat axioms of the standard library and, the last two, Flocq 4.1 and the classical reals).
+   Theorem 16: the duplicate test of insert() in binary64 (QuadTree_Float_Dup.v, QuadTree_Proof_FloatDup.v; same axioms
+   plus FloatAxioms.eqb_spec). *)
 From Coq Require Import List Arith Bool ZArith QArith Permutation Reals.
 From TK Require Import QuadTree_Model QuadTree_Spec QuadTree_SpecExec QuadTree_SpecExec2 QuadTree_Proof_Base
                        QuadTree_Proof_Insert QuadTree_Proof_Main QuadTree_Proof_Forces
@@ -17,7 +19,7 @@ From TK Require Import QuadTree_Model QuadTree_Spec QuadTree_SpecExec QuadTree_S
                        QuadTree_Proof_Gradient QuadTree_Proof_Dump QuadTree_Proof_Coarse QuadTree_Proof_Counts QuadTree_Proof_Terminates
                        QuadTree_Proof_Final QuadTree_Proof_Sqrt
                        QuadTree_Proof_Theta QuadTree_Float_Model QuadTree_Proof_Float QuadTree_Proof_FloatExact
-                       QuadTree_Proof_FloatQ.
+                       QuadTree_Proof_FloatQ QuadTree_Float_Dup QuadTree_Proof_FloatDup.
 Import ListNotations.
 Local Open Scope Q_scope.
 
@@ -573,3 +575,25 @@ Theorem child_boxes_binary64_are_exact_model : forall g c,
   cell_eq (cellQ (fswc c)) (swc (cellQ c)) /\ cell_eq (cellQ (fsec c)) (sec (cellQ c)).
 Proof. exact fchildren_refine_gen. Qed.
 Print Assumptions child_boxes_binary64_are_exact_model.
+
+(* 16. the DUPLICATE TEST of insert() in binary64 (`point[d] != data[index[n]*2+d]` for d = 0, 1: the IEEE comparison,
+       QuadTree_Float_Dup.fdup) is the duplicate test of the exact-rational model (QuadTree_Model.pt_eqb) on the rational
+       values of the doubles, for EVERY pair of finite points.  In particular +0.0 and -0.0, which the model cannot tell
+       apart (both are the rational 0), are duplicates for the code as well (16a).  A test on the bit patterns (memcmp
+       over the coordinate pair) is a different function: (+0.0, 3/8) and (-0.0, 3/8) are one point for the model and two
+       for it (16b) - with it the model and the code part ways on inputs that are the same numbers. *)
+Theorem duplicate_test_binary64_is_exact_model : forall p q : fpt,
+  pt_finite p -> pt_finite q -> fdup p q = pt_eqb (ptQ p) (ptQ q).
+Proof. exact fdup_is_pt_eqb. Qed.
+Print Assumptions duplicate_test_binary64_is_exact_model.
+Example duplicate_test_binary64_nonvacuous : pt_finite zpos_pt /\ pt_finite zneg_pt.
+Proof. exact zpts_finite. Qed.
+Theorem duplicate_test_identifies_signed_zeros :
+  pt_finite zpos_pt /\ pt_finite zneg_pt /\
+  pt_eqb (ptQ zpos_pt) (ptQ zneg_pt) = true /\ fdup zpos_pt zneg_pt = true /\ fdup_bits zpos_pt zneg_pt = false.
+Proof. exact signed_zero_twins. Qed.
+Print Assumptions duplicate_test_identifies_signed_zeros.
+Theorem bitwise_duplicate_test_refuted :
+  exists p q : fpt, pt_finite p /\ pt_finite q /\ pt_eqb (ptQ p) (ptQ q) = true /\ fdup_bits p q = false.
+Proof. exact QuadTree_Proof_FloatDup.bitwise_duplicate_test_refuted. Qed.
+Print Assumptions bitwise_duplicate_test_refuted.
